@@ -117,6 +117,10 @@ def check_roundtrip(prog, rec):
         rec.label("nontrivial", sample={"text": text} if len(text) < 220 else None)
     if prog.get("nl") == "\r\n":
         rec.label("crlf")
+    if prog.get("nl") == "\r":
+        rec.label("bare_cr")
+    if "#" in (prog.get("eof") or ""):
+        rec.label("comment_at_eof_without_newline")
     try:
         tree = fresh_parser().parse(text)
     except Exception as exc:
